@@ -14,6 +14,23 @@ CHECKS = {
    note=TB + "Modelled: an implementation's behaviour is a function of (identity, record). Not modelled: python/addrxlat.c bindings.",
    technique="Lean 4 proof over generated forwarder table + differential correspondence", design="§6 C17"),
 }
+CHECKS["C10"] = dict(
+   text="Full proof in Lean of a statement-by-statement model of addrxlat_map_set/search/copy (two scans, merge tests, extend/delta, "
+        "realloc-before-mutation, memmove splice, boundary writes): for every well-formed map and every non-wrapping range, set succeeds, the result "
+        "tiles [0,2^64) and its function view is the point-wise update; search = function view; OOM leaves the map unchanged; lifted by induction to "
+        "all histories with arbitrary allocation outcomes. Tie: differential run of the real functions (realloc failing on schedule) vs the compiled "
+        "model on exhaustive breakpoint pairs/triples and random boundary-biased histories; the function-view property is also evaluated directly on "
+        "the implementation's exposed range list.",
+   note=TB + "Guard: addr+endoff < 2^64. realloc modelled as succeed/fail preserving content; independence of copies (aliasing) checked by the stream only.",
+   technique="Lean 4 proof (induction over histories) + differential correspondence", design="§6 C10")
+CHECKS["C12"] = dict(
+   text="Lean proof over a model of read_locked/read_string_locked parameterised by a page oracle: success delivers exactly len correct bytes; "
+        "failure delivers a correct proper prefix ending at the start of the first failing page with that page's status; success iff all touched pages "
+        "fetchable; strings are the bytes up to the first NUL across pages; a failed string read returns no buffer. Tie: differential on generated ELF "
+        "dumps with holes in all three address spaces; the oracle is discovered by whole-page reads of the implementation so the check is independent "
+        "of the format handlers; sentinel bytes and live-allocation counting observe 'untouched beyond prefix' and 'no leaked partial buffer'.",
+   note=TB + "Everything below the read loop (translation, cache, format handler) is the oracle parameter; OracleSound: a failing fetch has non-OK status.",
+   technique="Lean 4 proof (loop invariant by induction on fuel) + differential correspondence", design="§6 C12")
 NOT_YET = {}
 
 def main():
